@@ -408,4 +408,69 @@ def runMulti (val : Derived → Nat → Int) (L : MultiLoop) : Nat → Nat → L
 def runMultiOrig (L : MultiLoop) (fuel : Nat) : Option (List Int) := runMulti (derivedVal L.ivs) L fuel 0 []
 def runMultiOpt (L : MultiLoop) (fuel : Nat) : Option (List Int) := runMulti (srVal L.ivs) L fuel 0 []
 
+/-! ## Dead-code elimination on straight-line code (`dead_code_elimination.rs:90-255`)
+
+Statements: a `Binary` (may trap for `/`, `%`) or a call with an observable effect (`print`).
+`optimize_stmts` walks the block backwards with a growing set of used names; a `Binary` is dropped
+iff its name is not in the set and its operator is neither DIV nor MOD (…:101-112); calls are
+always kept (…:122-134). -/
+
+inductive SStmt where
+  | bin (x : Nat) (op : Op) (a b : Operand)
+  | print (a : Operand)
+  deriving Repr, DecidableEq
+
+def Operand.vars : Operand → List Nat
+  | .lit _ => []
+  | .var x => [x]
+
+def update (ρ : Nat → Int) (x : Nat) (v : Int) : Nat → Int := fun y => if y = x then v else ρ y
+
+/-- Target semantics of a block: printed values, and the final environment (`none` = trapped). -/
+def execS : List SStmt → (Nat → Int) → List Int × Option (Nat → Int)
+  | [], ρ => ([], some ρ)
+  | .bin x op a b :: r, ρ =>
+    match evalTarget op (a.eval ρ) (b.eval ρ) with
+    | none => ([], none)
+    | some v => execS r (update ρ x v)
+  | .print a :: r, ρ =>
+    let res := execS r ρ
+    (a.eval ρ :: res.1, res.2)
+
+/-- `optimize_stmts(stmts, set)`: returns the kept statements and the used-name set at block entry. -/
+def dce : List SStmt → List Nat → List SStmt × List Nat
+  | [], live => ([], live)
+  | .bin x op a b :: r, live =>
+    let (r', l) := dce r live
+    if x ∉ l ∧ op ≠ .div ∧ op ≠ .mod then (r', l)
+    else (.bin x op a b :: r', a.vars ++ b.vars ++ l)
+  | .print a :: r, live =>
+    let (r', l) := dce r live
+    (.print a :: r', a.vars ++ l)
+
+/-! ## Loop-invariant code motion on the `Binary` statements of a loop body
+(`loop_invariant_code_motion.rs:19-126`, after `fix:` 5a00c22: DIV and MOD are never hoisted) -/
+
+def Operand.invariant (variant : List Nat) : Operand → Bool
+  | .lit _ => true
+  | .var x => !variant.contains x
+
+/-- returns (hoisted statements, statements kept in the loop, names that vary with the loop) -/
+def licm : List SStmt → List Nat → List SStmt × List SStmt × List Nat
+  | [], variant => ([], [], variant)
+  | .bin x op a b :: r, variant =>
+    if op ≠ .div ∧ op ≠ .mod ∧ a.invariant variant = true ∧ b.invariant variant = true then
+      let (h, k, v) := licm r variant
+      (.bin x op a b :: h, k, v)
+    else
+      let (h, k, v) := licm r (x :: variant)
+      (h, .bin x op a b :: k, v)
+  | .print a :: r, variant =>
+    let (h, k, v) := licm r variant
+    (h, .print a :: k, v)
+
+def noTrapStmt : SStmt → Bool
+  | .bin _ op _ _ => op ≠ .div ∧ op ≠ .mod
+  | .print _ => false
+
 end SamVerif.Opt
